@@ -343,99 +343,162 @@ type world struct {
 	c01  []string // honest blocks the node under test refused (reported, not a C12 failure)
 }
 
-func (w *world) close() {
-	w.o.Destroy()
-	w.f.Destroy()
+// The block factory is shared by all histories one worker process runs: its database holds the
+// prefix blocks (stable) and above them the tree of every event block built so far (unconfirmed),
+// so a block that several histories have in common is built once. This is equivalent to a factory
+// that makes every block stable, because the only canonical (= stable) data the transactions of
+// the alphabet consult were written by the prefix and are never removed afterwards: the issuer's
+// asset records, the senders' AssetIdState of the prefix ids, the asset-code index. If the two
+// views ever differed the node under test (which does make every block stable) would refuse the
+// block, and that is counted. C12_FRESH_FACTORY=1 selects a fresh factory per history that makes
+// every block stable (used to cross-check the equivalence; same states, transitions, outcomes).
+type built struct {
+	b        *types.Block
+	packaged []bool
 }
 
-func newWorld() *world {
-	w := &world{}
-	w.f = node.NewFactory(core.ScratchDir("c12f"), 1)
+var fac struct {
+	f      *node.Factory
+	prefix []*types.Block
+	err    string
+	cache  map[string]*built
+}
+
+var freshFactory = os.Getenv("C12_FRESH_FACTORY") != ""
+
+func newFactory() (f *node.Factory, prefix []*types.Block, msg string) {
+	f = node.NewFactory(core.ScratchDir("c12f"), 1)
+	head := f.BC.Genesis()
+	for i, l := range []types.Transactions{pre.fund, pre.create, pre.issue} {
+		b, inv, err := f.Make(node.BlockSpec{Parent: head, Miner: node.Deputy(0), Time: head.Time() + 10, Txs: l, Extra: fmt.Sprintf("prefix%d", i)})
+		if err != nil {
+			panic("harness: factory cannot build prefix block: " + err.Error())
+		}
+		if len(inv) > 0 || len(b.Txs) != len(l) {
+			return f, nil, fmt.Sprintf("prefix block %d: the assembler discarded %d of %d plain transactions", i, len(l)-len(b.Txs), len(l))
+		}
+		if _, err := f.DB.SetStableBlock(b.Hash()); err != nil {
+			panic("harness: factory SetStableBlock: " + err.Error())
+		}
+		if i == 1 {
+			waitIndex(f.Node)
+		}
+		prefix = append(prefix, b)
+		head = b
+	}
+	return f, prefix, ""
+}
+
+func closeFactory() {
+	if fac.f != nil {
+		fac.f.Destroy()
+		fac.f = nil
+	}
+}
+
+func (w *world) close() {
+	w.o.Destroy()
+	if freshFactory {
+		w.f.Destroy()
+	}
+}
+
+// newWorld returns the world after the prefix; msg != "" if the prefix could not be executed.
+func newWorld() (w *world, msg string) {
+	w = &world{}
+	var prefix []*types.Block
+	if freshFactory {
+		w.f, prefix, msg = newFactory()
+	} else {
+		if fac.f == nil {
+			fac.f, fac.prefix, fac.err = newFactory()
+			fac.cache = map[string]*built{}
+		}
+		w.f, prefix, msg = fac.f, fac.prefix, fac.err
+	}
 	w.o = node.NewNode(core.ScratchDir("c12o"), 1, node.K("observer"))
-	w.head = w.f.BC.Genesis()
 	for _, n := range fixedIDs {
 		w.ids = append(w.ids, idRef{n, idHash[n]})
 	}
-	return w
+	if msg != "" {
+		return w, msg
+	}
+	for i, b := range prefix {
+		if st := w.insert(b, fmt.Sprintf("prefix%d", i)); st != "ok" {
+			return w, fmt.Sprintf("prefix block %d: %s %v", i, st, w.c01)
+		}
+		if i == 1 {
+			waitIndex(w.o)
+		}
+	}
+	return w, ""
+}
+
+// insert hands a factory block to the node under test.
+func (w *world) insert(b *types.Block, what string) string {
+	w.o.Use()
+	if err := w.o.BC.InsertBlock(node.Wire(b)); err != nil {
+		w.c01 = append(w.c01, fmt.Sprintf("%s: %v", what, err))
+		return "node-rejected"
+	}
+	w.head = b
+	if w.o.BC.CurrentBlock().Hash() != b.Hash() || w.o.BC.StableBlock().Hash() != b.Hash() {
+		return "node-not-stable"
+	}
+	return "ok"
 }
 
 // deliver builds one block with txs on the head and hands it to the node under test. packaged[i]
-// tells whether the assembler kept txs[i]. status: "ok", "all-discarded" (no block was built),
+// tells whether the assembler kept txs[i]. status: "ok", "all-discarded" (nothing to deliver),
 // "node-rejected" or "node-not-stable".
 func (w *world) deliver(txs types.Transactions, extra string) (packaged []bool, status string) {
-	spec := node.BlockSpec{Parent: w.head, Miner: node.Deputy(0), Time: w.head.Time() + 10, Txs: txs, Extra: extra, NoSave: true}
-	b, _, err := w.f.Make(spec)
-	if err != nil {
-		panic("harness: factory cannot build block: " + err.Error())
+	key := w.head.Hash().Hex() + "|" + extra
+	bl := fac.cache[key]
+	if bl == nil || freshFactory {
+		b, _, err := w.f.Make(node.BlockSpec{Parent: w.head, Miner: node.Deputy(0), Time: w.head.Time() + 10, Txs: txs, Extra: extra})
+		if err != nil {
+			panic("harness: factory cannot build block: " + err.Error())
+		}
+		in := map[common.Hash]bool{}
+		for _, tx := range b.Txs {
+			in[tx.Hash()] = true
+		}
+		bl = &built{b: b, packaged: make([]bool, len(txs))}
+		for i, tx := range txs {
+			bl.packaged[i] = in[tx.Hash()]
+		}
+		if freshFactory {
+			if len(b.Txs) > 0 {
+				if _, err := w.f.DB.SetStableBlock(b.Hash()); err != nil {
+					panic("harness: factory SetStableBlock: " + err.Error())
+				}
+			}
+		} else {
+			fac.cache[key] = bl
+		}
 	}
-	in := map[common.Hash]bool{}
-	for _, tx := range b.Txs {
-		in[tx.Hash()] = true
+	if len(bl.b.Txs) == 0 {
+		return bl.packaged, "all-discarded"
 	}
-	packaged = make([]bool, len(txs))
-	for i, tx := range txs {
-		packaged[i] = in[tx.Hash()]
-	}
-	if len(b.Txs) == 0 {
-		return packaged, "all-discarded"
-	}
-	spec.NoSave = false
-	b2, _, err := w.f.Make(spec)
-	if err != nil || b2.Hash() != b.Hash() {
-		panic(fmt.Sprintf("harness: factory rebuild differs: %v", err))
-	}
-	// the factory is a single-deputy chain too: its block is stable at once
-	if _, err := w.f.DB.SetStableBlock(b.Hash()); err != nil {
-		panic("harness: factory SetStableBlock: " + err.Error())
-	}
-	w.head = b
-	w.o.Use()
-	if err := w.o.BC.InsertBlock(node.Wire(b)); err != nil {
-		w.c01 = append(w.c01, fmt.Sprintf("%s: %v", extra, err))
-		return packaged, "node-rejected"
-	}
-	if w.o.BC.CurrentBlock().Hash() != b.Hash() || w.o.BC.StableBlock().Hash() != b.Hash() {
-		return packaged, "node-not-stable"
-	}
-	return packaged, "ok"
+	return bl.packaged, w.insert(bl.b, extra)
 }
 
 // waitIndex waits until the asset-code -> issuer index (written asynchronously by the store's
-// writer goroutine after the block is on disk) is visible in both databases: TransferAssetTx reads it.
-func (w *world) waitIndex() {
+// writer goroutine after the block is on disk) is visible: TransferAssetTx reads it.
+func waitIndex(n *node.Node) {
 	deadline := time.Now().Add(20 * time.Second)
-	for _, n := range []*node.Node{w.f.Node, w.o} {
-		for _, a := range assets {
-			for {
-				got, err := n.DB.GetAssetCode(a.Code)
-				if err == nil && got == addr["I"] {
-					break
-				}
-				if time.Now().After(deadline) {
-					panic("harness: asset-code index never became visible")
-				}
-				time.Sleep(200 * time.Microsecond)
+	for _, a := range assets {
+		for {
+			got, err := n.DB.GetAssetCode(a.Code)
+			if err == nil && got == addr["I"] {
+				break
 			}
+			if time.Now().After(deadline) {
+				panic("harness: asset-code index never became visible")
+			}
+			time.Sleep(200 * time.Microsecond)
 		}
 	}
-}
-
-func (w *world) prefix() string {
-	for i, l := range []types.Transactions{pre.fund, pre.create, pre.issue} {
-		pk, st := w.deliver(l, fmt.Sprintf("prefix%d", i))
-		if st != "ok" {
-			return fmt.Sprintf("prefix block %d: %s %v", i, st, w.c01)
-		}
-		for j, ok := range pk {
-			if !ok {
-				return fmt.Sprintf("prefix block %d: tx %d discarded by the assembler", i, j)
-			}
-		}
-		if i == 1 {
-			w.waitIndex()
-		}
-	}
-	return ""
 }
 
 // ---------------------------------------------------------------------------------------------
@@ -898,16 +961,26 @@ func uniq(l []string) []string {
 }
 
 var (
-	maxDepth  = 3 // events after the prefix
-	fullUntil = 1 // the full alphabet is enabled in states reached by fewer than this many events
+	maxDepth   = 2 // events after the prefix in the per-asset scenarios T, N, C
+	mixedDepth = 3 // events after the prefix in the mixed scenario X
+	fullUntil  = 1 // the full alphabet is enabled in states reached by fewer than this many events
 )
 
+func envInt(name string, v *int) {
+	if s := os.Getenv(name); s != "" {
+		fmt.Sscanf(s, "%d", v)
+	}
+}
+
 func enabled(scen string, n int) []string {
+	if scen == "X" {
+		if n >= mixedDepth {
+			return nil
+		}
+		return mixedAlphabet
+	}
 	if n >= maxDepth {
 		return nil
-	}
-	if scen == "X" {
-		return mixedAlphabet
 	}
 	if n < fullUntil {
 		return fullAlphabet(scen)
@@ -937,8 +1010,16 @@ func run(hist []string) core.Outcome {
 	}
 	defer flushCounters()
 	scen, evs := hist[0], hist[1:]
-	w := newWorld()
-	defer w.close()
+	t0 := time.Now()
+	lap := func(what string) {
+		if verbose {
+			fmt.Printf("  [%s %.1f ms]\n", what, float64(time.Since(t0).Microseconds())/1000)
+			t0 = time.Now()
+		}
+	}
+	w, msg := newWorld()
+	defer func() { lap("events+oracle"); w.close(); lap("close") }()
+	lap("new world + prefix")
 	var o core.Outcome
 	addV := func(fp, what string) {
 		for _, v := range o.Violations {
@@ -948,7 +1029,7 @@ func run(hist []string) core.Outcome {
 		}
 		o.Violations = append(o.Violations, core.Violation{Fingerprint: prop + "/" + fp, What: what + fmt.Sprintf("; history %q", hist), Replay: map[string]interface{}{"history": hist}})
 	}
-	if msg := w.prefix(); msg != "" {
+	if msg != "" {
 		addV("prefix-canonical-case-failed", msg)
 		return o
 	}
@@ -1021,6 +1102,16 @@ func run(hist []string) core.Outcome {
 		return o
 	}
 	o.Key = core.Hash(scen + "|" + w.snapshot().key(w.ids))
+	if d := os.Getenv("C12_TRACE"); d != "" { // experiment aid: one line per history
+		fps := []string{}
+		for _, v := range o.Violations {
+			fps = append(fps, v.Fingerprint)
+		}
+		if f, err := os.OpenFile(filepath.Join(d, fmt.Sprintf("%d.txt", os.Getpid())), os.O_APPEND|os.O_CREATE|os.O_WRONLY, 0644); err == nil {
+			fmt.Fprintf(f, "%q => %s %v %v\n", hist, w.snapshot().key(w.ids), o.Tags, fps)
+			f.Close()
+		}
+	}
 	o.Enabled = enabled(scen, len(evs))
 	_ = last
 	return o
@@ -1092,8 +1183,12 @@ func main() {
 	node.Quiet()
 	buildPrefix()
 	if core.Thorough() {
-		maxDepth, fullUntil = 4, 2
+		maxDepth, mixedDepth, fullUntil = 4, 4, 2
 	}
+	// experiment knobs (not used by bin/check)
+	envInt("C12_DEPTH", &maxDepth)
+	envInt("C12_XDEPTH", &mixedDepth)
+	envInt("C12_FULL", &fullUntil)
 	safe := core.SafeRun(prop, run)
 	if core.Opt.Replay != "" {
 		var rp struct {
@@ -1106,6 +1201,7 @@ func main() {
 		verbose = true
 		fmt.Printf("replay %q\n", rp.History)
 		o := safe(rp.History)
+		closeFactory()
 		for _, v := range o.Violations {
 			fmt.Printf("VIOLATION-REPLAYED %s\n%s\n", v.Fingerprint, v.What)
 		}
@@ -1124,10 +1220,14 @@ func main() {
 		"holders are the 7 accounts of the alphabet; asset ids are the prefix ids, ids created by issue events and one never-issued id",
 		"balances (gas) are not part of the state key: no account can run out of LEMO within the depth bound",
 	}
+	bfsDepth := maxDepth
+	if mixedDepth > bfsDepth {
+		bfsDepth = mixedDepth
+	}
 	cdir := core.ScratchDir("c12cnt")
 	defer os.RemoveAll(cdir)
 	os.Setenv("C12_COUNTERS", cdir)
-	core.BFS(r, core.BFSConfig{Prop: prop, Run: safe, MaxDepth: maxDepth + 1, Subprocess: true, RecycleEvery: 3000, PerRunLimit: 120 * time.Second})
+	core.BFS(r, core.BFSConfig{Prop: prop, Run: safe, MaxDepth: bfsDepth + 1, Subprocess: true, RecycleEvery: 3000, PerRunLimit: 120 * time.Second})
 	total := map[string]int64{}
 	files, _ := filepath.Glob(filepath.Join(cdir, "*.json"))
 	sort.Strings(files)
@@ -1145,7 +1245,7 @@ func main() {
 	}
 	os.RemoveAll(cdir)
 	r.Extra["effects"] = total
-	r.Extra["events_after_prefix"] = maxDepth
+	r.Extra["events_after_prefix"] = map[string]int{"T": maxDepth, "N": maxDepth, "C": maxDepth, "X(mixed)": mixedDepth}
 	r.Extra["full_alphabet_levels"] = fullUntil
 	r.Extra["alphabet_sizes"] = map[string]int{"T.full": len(fullAlphabet("T")), "N.full": len(fullAlphabet("N")), "C.full": len(fullAlphabet("C")), "T.core": len(coreAlphabet("T")), "N.core": len(coreAlphabet("N")), "C.core": len(coreAlphabet("C")), "mixed": len(mixedAlphabet)}
 	n := 0
